@@ -47,12 +47,18 @@ for d in sorted(glob.glob(os.path.join(V, "seeded", "benign", "*"))):
     loud = sorted(k for k, v in res["checks"].items() if not v.get("silent"))
     brows.append((res["id"], first[:150].replace("|", "/"), "yes" if res["suite_passes"] else "NO", ", ".join(silent), ", ".join(loud) or "-"))
 own = sum(1 for r in rows if any(c.startswith(r[1] + ":") for c in r[3].split(", ")))
+ownq = sum(1 for r in rows if (r[1] + ":quick") in r[3].split(", "))
 txt.append("")
-txt.append(f"{len(rows)} confirmed seeded changes; {own} caught by the check of the property they were written against.")
-txt += ["", "**Behaviour-preserving changes (false-alarm control).** Three further sub-agents were given all 20 property statements and asked for",
+txt.append(f"{len(rows)} confirmed seeded changes; {own} caught by the check of the property they were written against ({ownq} by its quick command).")
+txt += ["", "**Behaviour-preserving changes (false-alarm control).** Seven further sub-agents (two rounds) were given all 20 property statements and asked for",
         "refactorings that keep every property true (renamed private attributes and helpers, changed internal buffering, re-implemented",
-        "operators, moved loops, reworded messages). `tools/seeded.py benign` applies each to a scratch copy, requires the baseline suite to pass,",
-        "and runs the checks of the properties whose code the change touches: every one must exit 0 without a VIOLATION line.", "",
+        "operators, moved loops, reworded messages; in the second round also different but equivalent ways of calling the standard library:",
+        "`Queue.get(True, t)`, `put(x, block=True)`, `join(timeout=None)`, `subprocess.run`, `threading.active_count()`, `mkstemp`, `getparams()`).",
+        "`tools/seeded.py benign` applies each to a scratch copy, requires the baseline suite to pass, and runs the checks of the properties whose",
+        "code the change touches (plus the extra checks X02-X06 where relevant): every one must exit 0 without a VIOLATION line. One change of the",
+        "second round (R7_4: `threading.active_count()` instead of `len(threading.enumerate())` in the command-line wait loop) made C12 alarm: the",
+        "harness's stand-in for the `threading` module seen by `cmdline` only had `enumerate`. That was a false alarm of the machinery; the stand-ins for",
+        "`time` and `threading` are now full proxies of the real modules with only `sleep` / `enumerate` / `active_count` replaced, and the rerun is silent.", "",
         "| change | what it does | suite passes | checks that stayed silent | checks that raised an alarm |", "|---|---|---|---|---|"]
 for r in brows:
     txt.append("| " + " | ".join(r) + " |")
